@@ -556,6 +556,7 @@ type genOpts struct {
 	eagerJoiner bool     // joiners create events before their accepted round (no honest core does)
 	joinEarly   bool     // joins are requested in the first steps (long life as validators afterwards)
 	shrink      bool     // a leave that lowers the supermajority, with a silent validator
+	skew        bool     // one honest creator's clock runs an hour fast for the first half of the run, then is corrected
 	hermit      bool     // the lagger first builds a long chain of loaded events on its own (high Lamport timestamps), stays cut off while the others advance several rounds, and is then pulled from: an other-parent far behind in rounds and ahead in Lamport time
 	sleeper     bool     // the last creator sleeps from steps/6 on and only wakes to create a witness of a decided round that still waits for an earlier one
 	topo        int      // gossip graph: 0 complete, 1 path, 2 two camps joined by one bridge (persistent split votes, slow elections)
@@ -569,6 +570,9 @@ func (o genOpts) String() string {
 	s := fmt.Sprintf("n0=%d extra=%d steps=%d lag=%v silent=%v part=%v leave=%v stale=%v byz=%v burst=%v late=%v ring=%v topo=%d sleeper=%v", o.n0, o.extra, o.steps, o.lag, o.silentThird, o.partition, o.leave, o.staleOp, o.byz, o.burst, o.late, o.ring, o.topo, o.sleeper)
 	if o.hermit {
 		s += " hermit=true"
+	}
+	if o.skew {
+		s += " skew=true"
 	}
 	return s
 }
@@ -700,6 +704,15 @@ func generate(rng *rand.Rand, o genOpts, c *Case, ref *hnode) *dag {
 	isByz := map[int]bool{}
 	for _, b := range o.byz {
 		isByz[b] = true
+	}
+	skewWho := -1
+	if o.skew {
+		for try := 0; try < 20 && (skewWho < 0 || isByz[skewWho]); try++ {
+			skewWho = rng.Intn(o.n0)
+		}
+		if isByz[skewWho] {
+			skewWho = -1
+		}
 	}
 	lagger, lagFrom, lagTo := -1, 0, 0
 	if o.lag {
@@ -1017,6 +1030,9 @@ func generate(rng *rand.Rand, o genOpts, c *Case, ref *hnode) *dag {
 			}
 		}
 		ts := int64(1600000000 + count + rng.Intn(7))
+		if o.skew && a == skewWho && count < o.steps/2 {
+			ts += 3600
+		}
 		if isByz[a] {
 			switch rng.Intn(4) {
 			case 0:
